@@ -184,7 +184,7 @@ def gen_sequence(rng, n, paths, nkeys=4):
     return seq
 
 
-VALUES = ["text-é", "", b"\x00\xffbytes", b"", None, 7, [1, {"a": (2, 3)}], SM.Obj("o")]
+VALUES = ["text-é", "", b"\x00\xffbytes", b"", None, 7, [1, {"a": (2, 3)}], SM.Obj("o"), "crlf\r\nline\rend\n", b"\r\n\r"]
 
 
 def seq_job(arg):
